@@ -318,7 +318,7 @@ fn run_random(ctx: &mut Ctx, rng: &mut Rng, _index: u64) {
         6..=8 => rng.range(1, 60),
         _ => rng.range(60, 100),
     };
-    let big_lines = rng.chance(1, 12);
+    let big_lines = rng.chance(1, 12) && !crate::framework::small_mode();
     let mut fields: Vec<Field> = Vec::new();
     for _ in 0..n {
         // duplicates: reuse an earlier name (possibly in another letter case), adjacent or interleaved
@@ -359,7 +359,7 @@ fn run_random(ctx: &mut Ctx, rng: &mut Rng, _index: u64) {
 
 fn run_limits(ctx: &mut Ctx, rng: &mut Rng, _index: u64) {
     // exactly max_headers fields (Transfer-Encoding counts while parsing) must be accepted
-    let max = *rng.pick(&[1usize, 2, 7, 100, 1000]);
+    let max = if crate::framework::small_mode() { *rng.pick(&[1usize, 2, 7, 30]) } else { *rng.pick(&[1usize, 2, 7, 100, 1000]) };
     let mut fields: Vec<Field> = Vec::new();
     for i in 0..max {
         let name = if rng.chance(1, 4) && i > 0 { fields[rng.usize_below(i)].name.clone() } else { random_name(rng) };
